@@ -1523,6 +1523,127 @@ theorem chain_new_html (lower : String → String) :
   simp only [headerValue, List.foldl_nil, hfm fs vs h]
   split <;> rfl
 
+/-! ### from the token-level specifications to `StageOK` -/
+
+/-- the tokenizer sees the serialised document as its token list, the bytes are valid UTF-8 and the last
+token is not a text holding `<` (which `filter` would keep back until `end`) -/
+structure TokAgree (doc : List Node) : Prop where
+  toks : tk (serializeList doc) = (tokensOfList vt doc, [])
+  utf8 : utf8Split (serializeList doc) = some (serializeList doc, [])
+  noHeld : splitHeld (tokensOfList vt doc) = (tokensOfList vt doc, [])
+
+theorem stageOK_of_fold {v : Visitor} {doc : List Node} {s : HtmlSt} {y : Bytes} (ha : TokAgree tk vt doc)
+    (hf : (tokensOfList vt doc).foldl (stepTok tk ev) (HtmlSt.new v, []) = (s, y)) (hs : s.stack = []) :
+    StageOK tk ev v (serializeList doc) y := by
+  refine ⟨ha.utf8, by rw [ha.toks], by rw [ha.toks]; exact ha.noHeld, ⟨s, by rw [ha.toks]; exact hf, hs⟩⟩
+
+/-- the domain of one filter on one document, by action -/
+inductive InDomain (doc : List Node) : BodyFilter → Prop where
+  | append (p1 : Bytes) (ps : List Bytes) (sel : Option Bytes) (value : Bytes)
+      (h : AnyDomAPList tk .append sel vt (p1 :: ps) p1 ps doc) :
+      InDomain doc (.html Rio.Consts.filterActionAppend (p1 :: ps) sel value)
+  | prepend (p1 : Bytes) (ps : List Bytes) (sel : Option Bytes) (value : Bytes)
+      (h : AnyDomAPList tk .prepend sel vt (p1 :: ps) p1 ps doc) :
+      InDomain doc (.html Rio.Consts.filterActionPrepend (p1 :: ps) sel value)
+  | replace1 (p1 : Bytes) (sel : Option Bytes) (value : Bytes)
+      (h : AnyDomGList vt [p1] p1 (fun _ _ knd cs => TargetR vt [p1] p1 knd cs) doc) :
+      InDomain doc (.html Rio.Consts.filterActionReplace [p1] sel value)
+  | replaceN (p1 a : Bytes) (rest : List Bytes) (sel : Option Bytes) (value : Bytes)
+      (hnd : (p1 :: a :: rest).Nodup)
+      (h : OneHitL vt (p1 :: a :: rest) p1
+        (fun _ _ knd cs => ChildDomR vt (p1 :: a :: rest) (a :: rest) p1 knd cs) doc) :
+      InDomain doc (.html Rio.Consts.filterActionReplace (p1 :: a :: rest) sel value)
+
+theorem actions_distinct :
+    Rio.Consts.filterActionPrepend ≠ Rio.Consts.filterActionAppend ∧
+    Rio.Consts.filterActionReplace ≠ Rio.Consts.filterActionAppend ∧
+    Rio.Consts.filterActionReplace ≠ Rio.Consts.filterActionPrepend := by
+  simp [Rio.Consts.filterActionPrepend, Rio.Consts.filterActionAppend, Rio.Consts.filterActionReplace]
+
+/-- **one filter in its domain**: the fold over the document's tokens ends with nothing buffered and has
+emitted the serialisation of the reference edit -/
+theorem fold_inDomain (hvt : VtLossless vt) {doc : List Node} {f : BodyFilter} (h : InDomain tk vt doc f) :
+    ∃ v s, VisitorsOf [f] [v] ∧
+      (tokensOfList vt doc).foldl (stepTok tk ev) (HtmlSt.new v, []) =
+        (s, serializeList (editD (decOf ev) doc f)) ∧ s.stack = [] := by
+  obtain ⟨h1, h2, h3⟩ := actions_distinct
+  cases h with
+  | append p1 ps sel value h =>
+    refine ⟨vis .append sel value [] p1 ps false, stG .append sel value none [] p1 ps,
+      ⟨⟨_, _, _, _, rfl, by simp [Visitor.new, vis]⟩, trivial⟩, ?_, ?_⟩
+    · rw [new_eq_stG, anyList_AP tk ev .append sel value vt (Or.inl rfl) hvt (valueMarks value) p1 ps
+        (P := p1 :: ps) (by simp) (fun a ha => by simp [ha]) doc [] h]
+      simp [editD, opOf, selN]
+    · rfl
+  | prepend p1 ps sel value h =>
+    refine ⟨vis .prepend sel value [] p1 ps false, stG .prepend sel value none [] p1 ps,
+      ⟨⟨_, _, _, _, rfl, by simp [Visitor.new, vis, h1]⟩, trivial⟩, ?_, ?_⟩
+    · rw [new_eq_stG, anyList_AP tk ev .prepend sel value vt (Or.inr rfl) hvt (valueMarks value) p1 ps
+        (P := p1 :: ps) (by simp) (fun a ha => by simp [ha]) doc [] h]
+      simp [editD, opOf, selN, h1]
+    · rfl
+  | replace1 p1 sel value h =>
+    refine ⟨vis .replace sel value [] p1 [] false, stG .replace sel value none [] p1 [],
+      ⟨⟨_, _, _, _, rfl, by simp [Visitor.new, vis, h2, h3]⟩, trivial⟩, ?_, ?_⟩
+    · rw [new_eq_stG]
+      have hA := stNames_stG VKind.replace sel value (P := [p1]) none [] p1 [] (by simp) (fun _ h => by cases h)
+      rw [anyList_gen tk ev vt (decOf ev) .replace (selN sel) (.verb value (valueMarks value)) [p1] p1 []
+        (fun _ _ knd cs => TargetR vt [p1] p1 knd cs) hvt (by simp) hA (push_stG _ _ _ _ _ _ _)
+        (fun d at_ knd cs out hh => by
+          rw [target_R tk ev sel value vt hvt (by simp) hh none [] out (valueMarks value), editNodeD_target]; rfl)
+        doc [] h]
+      simp [editD, selN, h2, h3]
+    · rfl
+  | replaceN p1 a rest sel value hnd h =>
+    refine ⟨vis .replace sel value [] p1 (a :: rest) false,
+      stX .replace sel value (zEndBefore [] p1 (a :: rest)) (zEndCur p1 (a :: rest)),
+      ⟨⟨_, _, _, _, rfl, by simp [Visitor.new, vis, h2, h3]⟩, trivial⟩, ?_, ?_⟩
+    · rw [new_eq_stG]
+      have hA := stNames_stG VKind.replace sel value (P := p1 :: a :: rest) none [] p1 (a :: rest)
+        (by simp) (fun _ h => by cases h)
+      have htm : zEndCur p1 (a :: rest) ∈ p1 :: a :: rest := zEndCur_mem p1 (a :: rest)
+      rw [onehitL_gen tk ev vt (decOf ev) .replace (selN sel) (.verb value (valueMarks value)) (p1 :: a :: rest)
+        p1 (a :: rest) (fun _ _ knd cs => ChildDomR vt (p1 :: a :: rest) (a :: rest) p1 knd cs)
+        (A := stG .replace sel value none [] p1 (a :: rest))
+        (B := stX .replace sel value (zEndBefore [] p1 (a :: rest)) (zEndCur p1 (a :: rest)))
+        (Q := [zEndCur p1 (a :: rest)])
+        hvt (by simp) hA (push_stG _ _ _ _ _ _ _) (stNames_stX _ _ _ _ _) (push_stX _ _ _ _ _)
+        (fun x hx => by simp at hx; exact hx ▸ htm)
+        (fun d at_ knd cs out hh => by
+          rw [elem_R tk ev sel value vt hvt (valueMarks value) (a :: rest) [] p1 d at_ knd cs none out hh (by simp)
+            (fun x hx => List.mem_cons_of_mem _ hx) hnd (fun _ h => by cases h)]
+          congr 2
+          simp [editNodeD])
+        doc [] h]
+      simp [editD, selN, h2, h3]
+    · rfl
+
+/-- a list of filters applied one after the other, each in its domain on the document it sees -/
+def StepsOK : List Node → List BodyFilter → Prop
+  | _, [] => True
+  | d, f :: fs =>
+    InDomain tk vt d f ∧ TokAgree tk vt d ∧ (fs ≠ [] → serializeList (editD (decOf ev) d f) ≠ []) ∧
+    StepsOK (editD (decOf ev) d f) fs
+
+theorem chained_of_steps (hvt : VtLossless vt) :
+    ∀ (fs : List BodyFilter) (d : List Node), StepsOK tk ev vt d fs →
+      ∃ vs, VisitorsOf fs vs ∧
+        Chained tk ev vs (serializeList d) (serializeList (editAllD (decOf ev) d fs))
+  | [], d, _ => ⟨[], trivial, by simp [Chained, editAllD]⟩
+  | f :: fs, d, h => by
+    obtain ⟨hdom, hag, hne, hrest⟩ := h
+    obtain ⟨v, s, hv, hfold, hst⟩ := fold_inDomain tk ev vt hvt hdom
+    obtain ⟨vs, hvs, hch⟩ := chained_of_steps hvt fs _ hrest
+    refine ⟨v :: vs, ⟨hv.1, hvs⟩, ?_⟩
+    refine ⟨_, stageOK_of_fold tk ev vt hag hfold hst, ?_, ?_⟩
+    · intro hvsne
+      apply hne
+      intro e; subst e
+      cases vs with
+      | nil => exact hvsne rfl
+      | cons _ _ => simp [VisitorsOf] at hvs
+    · simpa [editAllD] using hch
+
 end
 
 end Rio.Filter
